@@ -89,3 +89,19 @@ Print Assumptions C12_result_whole.
 Print Assumptions C12_send_input_result.
 Print Assumptions C12_get_prompt_result.
 Print Assumptions C12_process_read_buf_is_source.
+
+(* THE TIE BY TRANSLATION for the interactive send: channel/sendinteractive.go as the source has it
+   on this run — a range loop over the events with a nested loop over the completion patterns and
+   two breaks, translated statement by statement — invokes, when every primitive succeeds, exactly
+   the primitives the model's interactive_loop invokes: which event's input is written and with
+   which redaction flag, whether its echo is read (only a visible input with an expected response),
+   the return, the prompt read with the completion patterns followed by the event's response or the
+   channel's prompt, early completion between events, and the result.  For EVERY event list, every
+   operation options and every sequence of read results. *)
+From Scrapli Require Import DecideLoops InteractiveSrcDefs InteractiveSrc InteractiveSrcModel InteractiveTie.
+Theorem C12_interactive_is_source : forall cfg o events reads acc,
+  exists acts,
+    si_run (length (o_complete o)) (msev o events reads) = Some acts
+    /\ pacts (interactive_loop cfg o events acc) reads = flat_map (act_pacts cfg o events) acts.
+Proof. exact interactive_source_meets_model. Qed.
+Print Assumptions C12_interactive_is_source.
